@@ -23,7 +23,7 @@ import kernels as ref  # noqa: E402
 META = {
     "level": "other",
     "technique": "compiler-evaluated constant tables compared entry-by-entry with an independent generator + symbolic kernel extraction from typed HIR with AC-normalised syntactic comparison against reference expressions",
-    "claim": "Fully decides the table sentence of the property (all 1280 + 512 entries). Decides that the hash step, cipher round (encrypt, decrypt, single dword) and Jenkins kernels are syntactically the published algorithms after AC normalisation, and that encrypt/decrypt differ only in which word feeds the seed — which implies mutual inversion for every key and buffer. Does not evaluate hashes on sample strings. Also: every arm of lookup3's remainder switch places byte i in word i/4 at shift 8·(i mod 4); the byte wrappers' early-return guards agree for all (length, key) classes; name hashes consume bytes. Wave 6: the HET hash pair is (masked hash with top bit set, its top byte) for every table width, evaluated on the post-processing expression; hash loops have no early exit.",
+    "claim": "Fully decides the table sentence of the property (all 1280 + 512 entries). Decides that the hash step, cipher round (encrypt, decrypt, single dword) and Jenkins kernels are syntactically the published algorithms after AC normalisation, and that encrypt/decrypt differ only in which word feeds the seed — which implies mutual inversion for every key and buffer. Does not evaluate hashes on sample strings. Also: every arm of lookup3's remainder switch places byte i in word i/4 at shift 8·(i mod 4); the byte wrappers' early-return guards agree for all (length, key) classes; name hashes consume bytes. Wave 6: the HET hash pair is (masked hash with top bit set, its top byte) for every table width, evaluated on the post-processing expression; hash loops have no early exit. Wave 8: the tail key of every byte wrapper evaluates to key + len/4 (lengths 1..=23); the name hashes consume the whole name (no length-limiting operation on it).",
     "note": "Trusted: rustc's constant evaluator for the tables; the symbolic evaluator treats integer casts as transparent (all casts in these kernels are widenings of a byte or of a masked value) and wrapping_add/+ as the same operator. Reference written from the published MPQ format / lookup3.c, kept in reference/kernels.py.",
     "assumptions": ["u32 wrapping arithmetic (the kernels use wrapping_* or run on values that cannot overflow usize indices)"],
     "explanation": "ENCRYPTION_TABLE, ASCII_TO_UPPER, ASCII_TO_LOWER; hash_string, encrypt_block, decrypt_block, decrypt_dword; encrypt_data / decrypt_file_data / decrypt_table_data; jenkins_one_at_a_time, hashlittle2, jenkins_hashlittle2.",
